@@ -122,7 +122,7 @@ class C15(PropCheck):
     ]
 
     def correspond(self, tier, seed, rng):
-        n = 400 if tier == "quick" else 5000
+        n = 400 if tier == "quick" else 20000
         blocks = [gen_block(rng) for _ in range(n)]
         chunks = [blocks[i::core.NPROC] for i in range(core.NPROC)]
         res = core.pmap(run_blocks, chunks)
